@@ -10,6 +10,7 @@ import (
 	logging "github.com/ipfs/go-log/v2"
 
 	"github.com/celestiaorg/go-header"
+	"github.com/celestiaorg/go-header/internal/verifhook"
 )
 
 var log = logging.Logger("header/sync")
@@ -344,6 +345,7 @@ func (s *Syncer[H]) processHeaders(
 
 		// cleanup range only after we stored the headers
 		headersRange.Remove(to)
+		verifhook.Yield(ctx, "sync.removed")
 		// update fromHead for the next iteration
 		fromHead = headers[len(headers)-1]
 	}
